@@ -105,11 +105,30 @@ func genAsm(r *hx.Rand, tier string, class string) input {
 		cfg.Mem.Latency = 1 + r.Intn(10)
 		cfg.Mem.Width = 1 + r.Intn(3)
 	}
+	// back-pressure variant: one-slot port buffers, a slow single-bank memory below,
+	// a deep ROB window and a bursty agent, so that Send gates (CanSend == false)
+	// are exercised and requests wait at the head of incoming buffers
+	pressure := class != "leaf" && r.Chance(1, 3)
+	if pressure {
+		for i := range cfg.Caches {
+			cfg.Caches[i].PortBuf = 1
+		}
+		cfg.Mem = memasm.MemCfg{Kind: "banked", NumModules: 1, Interleave: 4096, PortBuf: 1, NumBanks: 1, PipeWidth: 1,
+			PipeDepth: 1 + r.Intn(2), StageLatency: 2 + r.Intn(4), PostBuf: 1, Log2Interleave: 6}
+		if cfg.ROB != nil || r.Bool() {
+			cfg.ROB = &memasm.ROBCfg{BufferSize: 8, NumReqPerCycle: 4}
+		}
+		cfg.Agent.IssueWidth = 2
+		cfg.Agent.PortBuf = 16
+	}
 	line := uint64(64)
 	pool := 6
 	if len(cfg.Caches) > 0 {
 		line = uint64(1) << cfg.Caches[0].Log2Block
 		pool = cfg.Caches[0].Sets*cfg.Caches[0].Ways*2 + 2
+	}
+	if pressure {
+		pool = 64 // many distinct lines: the agent does not serialise the burst on byte overlaps
 	}
 	all, caches := modules(cfg)
 	phases := 2 + r.Intn(2)
@@ -125,7 +144,16 @@ func genAsm(r *hx.Rand, tier string, class string) input {
 	// request that touches the same bytes
 	traffic := func(n int) []memasm.Op {
 		seg++
-		return dataOps(r, n, line, uint64(seg)<<22, pool)
+		ops := dataOps(r, n, line, uint64(seg)<<22, pool)
+		if pressure {
+			for i := range ops {
+				ops[i].Delay = 0
+			}
+		}
+		return ops
+	}
+	if pressure {
+		per += 24
 	}
 	for ph := 0; ph < phases; ph++ {
 		script = append(script, traffic(per/2+1)...)
@@ -408,13 +436,16 @@ func genAPI(r *hx.Rand, tier string) input {
 // ------------------------------------------------------------ gen / shrink
 
 func gen(r *hx.Rand, tier string) []json.RawMessage {
-	nasm, nleaf, napi, nvm := 20, 6, 80, 12
+	nasm, nleaf, napi, nvm, nlm := 20, 6, 80, 12, 25
 	if tier == "thorough" {
-		nasm, nleaf, napi, nvm = 250, 100, 1000, 150
+		nasm, nleaf, napi, nvm, nlm = 250, 100, 1000, 150, 300
 	}
 	var out []json.RawMessage
 	for i := 0; i < napi; i++ {
 		out = append(out, hx.J(genAPI(r.Fork(), tier)))
+	}
+	for i := 0; i < nlm; i++ {
+		out = append(out, hx.J(genLM(r.Fork(), tier)))
 	}
 	for i := 0; i < nvm; i++ {
 		out = append(out, hx.J(genVM(r.Fork(), tier)))
@@ -428,6 +459,23 @@ func gen(r *hx.Rand, tier string) []json.RawMessage {
 	return out
 }
 
+// chunks proposes the index ranges [lo,hi) of up to eight contiguous chunks of the
+// first n script steps (the closing rounds after n are always kept).
+func chunks(n int) [][2]int {
+	var out [][2]int
+	if n <= 0 {
+		return out
+	}
+	k := min(8, n)
+	for c := 0; c < k; c++ {
+		lo, hi := c*n/k, (c+1)*n/k
+		if hi > lo {
+			out = append(out, [2]int{lo, hi})
+		}
+	}
+	return out
+}
+
 func shrink(raw json.RawMessage) []json.RawMessage {
 	var in input
 	if hx.UJ(raw, &in) != nil {
@@ -437,35 +485,34 @@ func shrink(raw json.RawMessage) []json.RawMessage {
 	switch in.Kind {
 	case "asm":
 		s := in.Asm.Cfg.Script
-		// drop single data / control ops, but keep the closing enable+reset rounds
 		all, _ := modules(in.Asm.Cfg)
-		keep := len(s) - 4*len(all)
-		for i := 0; i < keep; i++ {
+		for _, ch := range chunks(len(s) - 4*len(all)) {
 			c := *in.Asm
-			c.Cfg.Script = append(append([]memasm.Op{}, s[:i]...), s[i+1:]...)
-			out = append(out, hx.J(input{Kind: "asm", Asm: &c}))
-			if len(out) > 60 {
-				break
-			}
-		}
-		if in.Asm.Buf {
-			c := *in.Asm
-			c.Buf = false
+			c.Cfg.Script = append(append([]memasm.Op{}, s[:ch[0]]...), s[ch[1]:]...)
 			out = append(out, hx.J(input{Kind: "asm", Asm: &c}))
 		}
 	case "vm":
 		sc := in.VM.Script
-		keep := len(sc) - 4*(len(in.VM.TLBs)+1)
-		for i := 0; i < keep && len(out) < 60; i++ {
+		for _, ch := range chunks(len(sc) - 4*(len(in.VM.TLBs)+1)) {
 			c := *in.VM
-			c.Script = append(append([]VMOp{}, sc[:i]...), sc[i+1:]...)
+			c.Script = append(append([]VMOp{}, sc[:ch[0]]...), sc[ch[1]:]...)
 			out = append(out, hx.J(input{Kind: "vm", VM: &c}))
+		}
+	case "lm":
+		sc := in.LM.Script
+		for _, ch := range chunks(len(sc) - 4) {
+			c := *in.LM
+			c.Script = append(append([]LMOp{}, sc[:ch[0]]...), sc[ch[1]:]...)
+			out = append(out, hx.J(input{Kind: "lm", LM: &c}))
 		}
 	case "api":
 		// prefixes stay disciplined (dropping an inner call would not)
 		ops := in.API.Ops
-		for n := len(ops) - 1; n > 0 && len(out) < 80; n-- {
-			c := apiInput{Ops: append([]ApiOp{}, ops[:n]...), Closed: false}
+		for _, ch := range chunks(len(ops)) {
+			if ch[0] == 0 {
+				continue
+			}
+			c := apiInput{Ops: append([]ApiOp{}, ops[:ch[0]]...), Closed: false}
 			out = append(out, hx.J(input{Kind: "api", API: &c}))
 		}
 	}
